@@ -95,19 +95,19 @@ void nmc_enumerate(const nmc::Tier& t, const nmc::Sink& emit) {
         }
         // roll, SCALAR shift with a LIST axis: every non-empty axis subset, spelled ascending non-negative and descending negative
         if (d <= 3 || T) {
-            L shifts = T ? L{-5, -4, -3, -2, -1, 0, 1, 2, 3, 4, 5} : (d <= 2 ? L{-4, -1, 1, 2, 5} : L{-4, 1, 2});
+            L shifts = T ? L{-5, -4, -3, -2, -1, 0, 1, 2, 3, 4, 5} : (d <= 2 ? L{-4, -1, 1, 2, 5} : L{-4, 2});
             nmc::each_subset((int)d, [&](const L& sub) { if (sub.empty()) return; L neg(sub.rbegin(), sub.rend()); for (auto& v : neg) v -= d;
                 for (long sh : shifts) { emit(Case("roll_sl", {s, {sh}, sub})); emit(Case("roll_sl", {s, {sh}, neg})); } });
         }
         // roll, LIST shift with a LIST axis of the same length: length 1, length 3, and pairs with negatively spelled axes (list/list form of "roll")
         if (d <= 2 || T) for (long a = -d; a < d; a++) { long n = s[(size_t)(a < 0 ? a + d : a)]; for (long sh = -n - 1; sh <= n + 1; sh++) emit(Case("roll", {s, {sh}, {a}})); }
         if (d >= 2 && (d <= 3 || T)) for (long a = 0; a < d; a++) for (long b = 0; b < d; b++) if (a != b) {
-            if (d == 2 || T) for (long x : {-1L, 1L, 2L}) for (long y : {-1L, 1L, 2L}) { emit(Case("roll", {s, {x, y}, {a - d, b}})); emit(Case("roll", {s, {x, y}, {a, b - d}})); emit(Case("roll", {s, {x, y}, {a - d, b - d}})); }
-            else for (auto xy : {L{1, 2}, L{-1, 1}, L{2, -1}}) emit(Case("roll", {s, xy, {a - d, b - d}}));
+            if (T) for (long x : {-1L, 1L, 2L}) for (long y : {-1L, 1L, 2L}) { emit(Case("roll", {s, {x, y}, {a - d, b}})); emit(Case("roll", {s, {x, y}, {a, b - d}})); emit(Case("roll", {s, {x, y}, {a - d, b - d}})); }
+            else for (auto xy : {L{1, 2}, L{-1, 1}, L{2, -1}}) { emit(Case("roll", {s, xy, {a - d, b - d}})); if (d == 2) { emit(Case("roll", {s, xy, {a - d, b}})); emit(Case("roll", {s, xy, {a, b - d}})); } }
         }
-        if (d == 3 || (d == 4 && T)) { bool big = true; for (long v : s) big &= v >= 2; if (big) for (auto ax : {L{0, 1, 2}, L{2, 0, 1}, L{-1, -3, -2}}) nmc::each_tuple(3, 0, 2, [&](const L& q) { static const long menu[3] = {-1, 1, 2}; emit(Case("roll", {s, {menu[q[0]], menu[q[1]], menu[q[2]]}, ax})); }); }
-        // pad: value omitted (default 0); widths 0..2 at dim <= 2, all-asymmetric widths over {0,1,3} at rank 3 (two shapes)
-        if (d <= 2) nmc::each_tuple((size_t)(2 * d), 0, 2, [&](const L& pw) { emit(Case("pad_default", {s, pw})); });
+        if (d == 3 || (d == 4 && T)) { bool big = true; for (long v : s) big &= v >= 2; if (big) for (auto ax : {L{0, 1, 2}, L{2, 0, 1}, L{-1, -3, -2}}) nmc::each_tuple(3, 0, T ? 2 : 1, [&](const L& q) { static const long menu[3] = {-1, 2, 1}; emit(Case("roll", {s, {menu[q[0]], menu[q[1]], menu[q[2]]}, ax})); }); }
+        // pad: value omitted (default 0); widths 0..2 at dim 1 and on (2,3) (thorough: dim <= 2), else 0..1; all-asymmetric widths over {0,1,3} at rank 3 (two shapes)
+        if (d <= 2) nmc::each_tuple((size_t)(2 * d), 0, (d == 1 || T || s == L{2, 3}) ? 2 : 1, [&](const L& pw) { emit(Case("pad_default", {s, pw})); });
         if (d == 3 && (s == L{2, 3, 2} || s == L{1, 2, 3} || T)) nmc::each_tuple(6, 0, 2, [&](const L& q) {
             static const long menu[3] = {0, 1, 3}; L pw(6); bool three = false; for (size_t i = 0; i < 6; i++) { pw[i] = menu[q[i]]; three |= pw[i] == 3; }
             for (size_t i = 0; i < 3; i++) if (pw[i] == pw[i + 3]) return;
@@ -118,13 +118,13 @@ void nmc_enumerate(const nmc::Tier& t, const nmc::Sink& emit) {
         // take: indices as a fixed array ("take_fa") and as a 1-d ndarray ("take_nd"), with an axis and with None
         if (d <= 2 || T || s == L{2, 3, 2}) for (long a = -d; a < d; a++) {
             long n = s[(size_t)(a < 0 ? a + d : a)];
-            auto two = [&](const L& ind) { emit(Case("take_fa", {s, ind, {a}})); emit(Case("take_nd", {s, ind, {a}})); };
+            auto two = [&](const L& ind) { emit(Case("take_fa", {s, ind, {a}})); if (ind.size() != 2 || d == 1 || T) emit(Case("take_nd", {s, ind, {a}})); };
             nmc::each_tuple(1, -n, n - 1, two);
             if (d == 1 || a >= 0 || T) nmc::each_tuple(2, -n, n - 1, two);
             two(L{-1, 0, n - 1});
         }
         if (d <= 2 || T) { auto two = [&](const L& ind) { emit(Case("take_none_fa", {s, ind})); emit(Case("take_none_nd", {s, ind})); };
-            nmc::each_tuple(1, -N, N - 1, two); if (N <= 4 || T) nmc::each_tuple(2, -N, N - 1, [&](const L& ind) { if (N > 6 && std::labs(ind[0]) % 3 != 0) return; two(ind); }); two(L{-1, 0, N - 1}); }
+            nmc::each_tuple(1, -N, N - 1, two); if (N <= 4 || (T && N <= 16)) nmc::each_tuple(2, -N, N - 1, two); two(L{-1, 0, N - 1}); }
         // repeat: repeats as a fixed array (length = extent), and a length-1 repeats (list / fixed array) that NumPy broadcasts
         if (d <= 2 || T) for (long a = -d; a < d; a++) { long n = s[(size_t)(a < 0 ? a + d : a)];
             if (n <= 3 && (a >= 0 || a == -1)) nmc::each_tuple((size_t)n, 1, 3, [&](const L& reps) { emit(Case("repeat_fa", {s, reps, {a}})); });
